@@ -75,6 +75,16 @@ class Check:
             self.fail_proof("no props/%s*.v" % self.pid)
             return False
         theorems, text, out = [], "", ""
+        # the Print Assumptions output depends only on /verif's own Coq sources (never on /repo): cache it per
+        # property, keyed by the contents of every .v file, so that an unchanged development is not re-traversed
+        hh = hashlib.sha256(self.pid.encode())
+        for root, _, files in sorted(os.walk(os.path.join(COQ, "theories"))):
+            for f in sorted(files):
+                if f.endswith(".v"):
+                    hh.update(f.encode())
+                    hh.update(open(os.path.join(root, f), "rb").read())
+        pa_cache = os.path.join(COQ, ".pa_%s_%s.txt" % (self.pid, hh.hexdigest()[:20]))
+        cached = open(pa_cache).read() if os.path.exists(pa_cache) else None
         for src in srcs:
             if not os.path.exists(src[:-2] + ".vo"):
                 self.fail_proof("coq build did not produce %s.vo:\n%s" % (os.path.basename(src)[:-2], out_make))
@@ -82,12 +92,22 @@ class Check:
             t = open(src).read()
             text += t
             theorems += re.findall(r"^\s*Theorem\s+([A-Za-z0-9_']+)", t, re.M)
+            if cached is not None:
+                continue
             vo = os.path.join(self.tmp, os.path.basename(src)[:-2] + ".vo")
-            rc, o = sh(["coqc", "-Q", "theories", "Ekit", "-o", vo, src], cwd=COQ, timeout=1200)
+            rc, o = sh(["coqc", "-Q", "theories", "Ekit", "-o", vo, src], cwd=COQ, timeout=2400)
             if rc != 0:
                 self.fail_proof("%s does not compile:\n%s" % (os.path.basename(src), o[-2000:]))
                 return False
             out += o + "\n"
+        if cached is not None:
+            out = cached
+            self.cov["print_assumptions_from_cache"] = os.path.basename(pa_cache)
+        else:
+            try:
+                open(pa_cache, "w").write(out)
+            except OSError:
+                pass
         closed = out.count("Closed under the global context")
         axioms = set()
         for blk in re.findall(r"Axioms:\n((?:.+\n?)+?)(?=\n\S|\Z)", out):
